@@ -157,7 +157,7 @@ def _wrap_sync[**Args, Result](
                     attempt += 1
                     ctx.log_error(
                         "Attempting to retry %s which failed due to an error: %s",
-                        function.__name__,
+                        getattr(function, "__name__", repr(function)),
                         exc,
                     )
 
@@ -203,7 +203,7 @@ def _wrap_async[**Args, Result](
                     attempt += 1
                     ctx.log_error(
                         "Attempting to retry %s which failed due to an error",
-                        function.__name__,
+                        getattr(function, "__name__", repr(function)),
                         exception=exc,
                     )
 
